@@ -257,7 +257,7 @@ Section Exec.
 
   (* executing with fuel: [exec_n n] handles programs of nesting depth < n; an
      exhausted fuel leaves the event untouched (never reached when n > depth,
-     see [exec_fuel_enough] in Proofs/ExecP.v) *)
+     see [exec_fuel_enough] in Proofs/FuelP.v) *)
   Fixpoint exec_n (n : nat) (o : op) (e : ev) : ev :=
     match n with
     | O => e
